@@ -177,6 +177,67 @@ theorem ccOffs_in (P : Params) : OffsIn (ccCone P) (ccOffs P) := by
 theorem ccStep_local (V : Variant) (P : Params) : Local (ccCone P) (ccStep V P) :=
   stencil_local_of_bounds _ _ _ (ccOffs_in P)
 
+theorem arange_map_getD {β : Type} (lo hi d : Int) (g : Int → Option β) (h1 : lo ≤ d) (h2 : d ≤ hi) :
+    ((arange lo hi).map g).getD (d - lo).toNat none = g d := by
+  unfold arange
+  have hlt : (d - lo).toNat < (hi + 1 - lo).toNat := by omega
+  have he : lo + (((d - lo).toNat : Nat) : Int) = d := by omega
+  simp [List.getD_eq_getElem?_getD, hlt]
+  congr 1
+  omega
+
+/-- **What a pixel reads, exactly**: its own cell, and from the other cells of its cone only the right
+    disparity (and whether the cell is in the image). -/
+theorem ccStep_congr (V : Variant) (P : Params) (a b : Img CcCell) (p : Px) (h0 : a p = b p)
+    (h : ∀ q, inCone (ccCone P) p q → (a q).map (fun x => x.2.2) = (b q).map (fun x => x.2.2)) :
+    ccStep V P a p = ccStep V P b p := by
+  have hnone : ∀ q, inCone (ccCone P) p q → (a q).isNone = (b q).isNone := by
+    intro q hq
+    have := congrArg Option.isNone (h q hq)
+    simpa using this
+  have hin : ∀ d ∈ ccOffs P, inCone (ccCone P) p (p.1 + d.1, p.2 + d.2) := by
+    intro d hd
+    have := ccOffs_in P d hd
+    unfold inCone
+    simp only
+    omega
+  unfold ccStep stencil
+  have hoffs : ccOffs P = (0, 0) :: (-(P.offset : Int), 0) :: ((P.offset : Int), 0) :: (0, -(P.offset : Int))
+      :: (0, (P.offset : Int)) :: (arange P.dmin P.dmax).map fun d => ((0 : Int), d) := rfl
+  have m1 : (-(P.offset : Int), (0 : Int)) ∈ ccOffs P := by rw [hoffs]; simp
+  have m2 : ((P.offset : Int), (0 : Int)) ∈ ccOffs P := by rw [hoffs]; simp
+  have m3 : ((0 : Int), -(P.offset : Int)) ∈ ccOffs P := by rw [hoffs]; simp
+  have m4 : ((0 : Int), (P.offset : Int)) ∈ ccOffs P := by rw [hoffs]; simp
+  have hrd : rdOf P (List.map ((fun d => a (p.1 + d.1, p.2 + d.2)) ∘ fun d => ((0 : Int), d)) (arange P.dmin P.dmax))
+      = rdOf P (List.map ((fun d => b (p.1 + d.1, p.2 + d.2)) ∘ fun d => ((0 : Int), d)) (arange P.dmin P.dmax)) := by
+    funext d
+    unfold rdOf
+    by_cases hd : P.dmin ≤ d ∧ d ≤ P.dmax
+    · rw [if_pos hd, if_pos hd, arange_map_getD P.dmin P.dmax d _ hd.1 hd.2,
+        arange_map_getD P.dmin P.dmax d _ hd.1 hd.2]
+      simp only [Function.comp]
+      apply h
+      apply hin ((0 : Int), d)
+      rw [hoffs]
+      simp only [List.mem_cons, List.mem_map]
+      right; right; right; right; right
+      exact ⟨d, (C07.mem_arange P.dmin P.dmax d).2 hd, rfl⟩
+    · rw [if_neg hd, if_neg hd]
+  rw [hoffs]
+  simp only [List.map_cons, List.map_map, Int.add_zero]
+  rw [h0]
+  cases hb : b p with
+  | none => simp [ccG]
+  | some x =>
+    obtain ⟨dl, flag, dr⟩ := x
+    simp only [ccG]
+    have e1 := hnone _ (hin _ m1)
+    have e2 := hnone _ (hin _ m2)
+    have e3 := hnone _ (hin _ m3)
+    have e4 := hnone _ (hin _ m4)
+    simp only [Int.add_zero] at e1 e2 e3 e4
+    rw [hrd, e1, e2, e3, e4]
+
 /-- with no border offset the cone is the interval on the pixel's own row -/
 theorem ccCone_offset_zero (P : Params) (h : P.offset = 0) :
     ccCone P = Cone.row (-P.dmin).toNat P.dmax.toNat := by
@@ -204,15 +265,6 @@ def ccScene (A B : Dataset) : Nat → Nat → CcCell := fun r c =>
 def InInterval (P : Params) (ny nx : Nat) (A : Dataset) : Prop :=
   ∀ r c, r < ny → c < nx →
     DispInInterval P ((A.disp.getD r []).getD c .nan) ((A.mask.getD r []).getD c 0)
-
-theorem arange_map_getD {β : Type} (lo hi d : Int) (g : Int → Option β) (h1 : lo ≤ d) (h2 : d ≤ hi) :
-    ((arange lo hi).map g).getD (d - lo).toNat none = g d := by
-  unfold arange
-  have hlt : (d - lo).toNat < (hi + 1 - lo).toNat := by omega
-  have he : lo + (((d - lo).toNat : Nat) : Int) = d := by omega
-  simp [List.getD_eq_getElem?_getD, hlt]
-  congr 1
-  omega
 
 /-- **The model of `disparity_checking` is the stencil `ccStep`** (flag word and confidence cell of every
     pixel), for rectangular maps of any size whose valid pixels have their rounded disparity in the
